@@ -38,7 +38,7 @@ def matcher(R, ctx):
     f = ctx.f
     b = ctx.body(r'^log_specification::LogSpecification::enabled$')
     NEXT = r"slice::Iter<.*> as std::iter::Iterator>::next$"
-    I = FDI(f, effects=[NEXT], loop_k=2)
+    I = FDI(f, effects=[NEXT], loop_k=ctx.k(2, 4))
     rows = I.run(b.path)
     problems = []
     shapes = set()
